@@ -65,6 +65,9 @@ def make_cases(chk, r, n_random, testdata=TESTDATA, corpus_prop=None, null_order
         cases.append(c)
         made += 1
         dist.add(m)
+    cap = int(os.environ.get("VERIF_VIEW_MAX_CASES", "0"))   # smoke tests only: keep the first n cases
+    if cap:
+        cases = cases[:2] + cases[-max(0, cap - 2):] if cap > 2 else cases[:cap]
     good = []
     for c in cases:
         p = cppdrv.prepare(c.text)
